@@ -1,6 +1,6 @@
 """Per-property MANIFEST texts (level, trusted base, technique). Only built checks are listed."""
 
-HOOK_COMMITS = []
+HOOK_COMMITS = ["81c554f verif hook: export the internal async processor under the verif build tag"]
 
 NOT_APPLICABLE = {}
 
@@ -63,4 +63,31 @@ META["C10"] = dict(
     level_text=("Exploration: the completeness half (right credentials accepted for every challenge the server can issue) and the soundness half "
                 "(any single differing field rejected) over generated inputs; the documented SETUP relaxation is the only accepted URL mismatch."),
     level_note="Trusted: MD5/SHA-256 of the standard library inside the code under test; the perturbation table in DESIGN.md (which fields bind which scheme).",
+)
+
+META["C14"] = dict(
+    design_ref="DESIGN.md section 4, C14",
+    technique="model-based property testing (rapid): generated arrival histories, differential against a reference model plus history invariants and RTCP report checks",
+    level_text=("Exploration: thousands of constructed arrival histories per run (all 65536 starting sequence numbers in the thorough tier) with a "
+                "reference model and model-independent invariants over the whole history, including the contents of receiver reports taken at "
+                "generated points. The space of histories is sampled; wrap positions are covered completely only in the thorough tier."),
+    level_note="Trusted: the 60-line reference model written from the receiver's comments; the parking trick for the report goroutine.",
+)
+
+META["C15"] = dict(
+    design_ref="DESIGN.md section 4, C15",
+    technique="property-based testing (rapid) against the generator's own 64-bit timeline and wall-clock association (reference-model oracle), round-trip check for the NTP codec",
+    level_text=("Exploration: generated timelines crossing 2^32 repeatedly in both directions, multi-track placement, sender-report/receiver "
+                "mapping with an injected clock and parked report goroutines, dense sampling of NTP instants with nanosecond parts."),
+    level_note="Trusted: int64/big.Int arithmetic of the generator as the timeline oracle; tolerances stated in the rule (1 tick + 4 ns; 1 ns; 5 fraction units).",
+)
+
+META["C16"] = dict(
+    design_ref="DESIGN.md section 4, C16",
+    technique="bounded exhaustive enumeration + model-based property testing (rapid) of the ring buffer; generated concurrent histories of the async processor checked by linearizability-style history invariants, also under the race detector",
+    level_text=("Exploration: the sequential behaviour is enumerated exhaustively up to length 8 for three capacities and sampled beyond; concurrent "
+                "behaviour is a sample of schedules (GOMAXPROCS, yields, busy times drawn by the generator) judged by invariants over stamped "
+                "histories - exactly-once, FIFO, bounded refusal, no execution after Close/error, no stuck consumer."),
+    level_note=("Trusted: the atomic stamp counter; the bracket argument for refusals (sound, not complete). Hook: the internal processor is reached "
+                "through a type alias compiled only with the verif build tag."),
 )
